@@ -121,7 +121,9 @@ def run(ctx):
             ctx.fail("fpsearch", c, "the same request gives different phases later in the same process (or default delta != 0.1)")
             continue
         dev = max(abs(float.fromhex(x) - float.fromhex(y)) for x, y in zip(ph_gamma, ph_delta))
-        if len(ph_gamma) != 2 * d or dev > 1e-9:
+        # passing gamma goes through sqrt(1 - gamma^2): the double nearest to gamma moves it by up to 2u/(1 - gamma^2) relatively
+        gam_ = 1 / math.cosh(math.acosh(1 / delta) / (2 * d + 1))
+        if len(ph_gamma) != 2 * d or dev > 1e-9 + 4e-16 / max(1 - gam_ * gam_, 1e-300):
             ctx.fail("fpsearch", c, "passing gamma = 1/cosh(arccosh(1/delta)/L) gives phases differing by %.3e from passing delta" % dev)
             continue
         lines.append("(fpslayout %s)" % Q.qlist(alpha))
